@@ -101,6 +101,22 @@ def gen_K3() -> str:
 
 KERNELS = {"K1": gen_K1, "K2": gen_K2, "K3": gen_K3}
 
+# plugins: tools/kernels/<name>.py defining NAME (e.g. "K4") and gen() -> Coq text.
+# A plugin may subclass py2gallina.FnTranslator to support more syntax (fail closed!).
+_PLUG = os.path.join(HERE, "kernels")
+if os.path.isdir(_PLUG):
+    import importlib.util
+    for _f in sorted(os.listdir(_PLUG)):
+        if _f.endswith(".py") and not _f.startswith("_"):
+            _spec = importlib.util.spec_from_file_location("vk_" + _f[:-3], os.path.join(_PLUG, _f))
+            _m = importlib.util.module_from_spec(_spec)
+            try:
+                _spec.loader.exec_module(_m)
+                KERNELS[_m.NAME] = _m.gen
+            except Exception as _e:  # a broken plugin fails closed: its kernel becomes a stub
+                _nm = getattr(_m, "NAME", _f[:-3])
+                KERNELS[_nm] = (lambda err: (lambda: (_ for _ in ()).throw(Unsupported(err))))(f"plugin {_f}: {type(_e).__name__}: {_e}")
+
 
 def stub(name: str, err: str) -> str:
     return ("(* GENERATED stub: translation of kernel %s failed closed.\n   %s *)\n"
@@ -117,7 +133,7 @@ def main(only=None) -> dict:
         try:
             text = fn()
             err = None
-        except (Unsupported, SyntaxError, OSError, KeyError, IndexError, AttributeError, ValueError) as e:  # fail closed
+        except Exception as e:  # fail closed (Unsupported, SyntaxError, OSError, ...)
             text = stub(name, f"{type(e).__name__}: {e}")
             err = f"{type(e).__name__}: {e}"
         changed = write_if_changed(path, text)
